@@ -7,10 +7,15 @@
 #include <stdio.h>
 #include <stdlib.h>
 #include <string.h>
+#ifdef SIMC
+#include "typessimc.h"
+#include "wrapsimc.h"
+#else
 #include "typessimlib.h"
 #include "wrapsimlib.h"
 #include "wrapItem.h"
 #include "wrapBox.h"
+#endif
 #include "simhook.h"
 
 /* helpers that are implemented in C but normally called from Fortran through bind(C) */
@@ -19,8 +24,10 @@ void SIM_ShroudCopyArray(SIM_SHROUD_array *data, void *c_var, size_t c_var_size)
 
 #define NH 8
 #define NC 4
+#ifndef SIMC
 static SIM_Item h[NH];
 static SIM_Box bx[NH];
+#endif
 static SIM_SHROUD_capsule_data caps[NC];
 static int k;
 
@@ -63,45 +70,96 @@ static void do_op(const char *op, int a, int b, const char *text)
 {
     SIM_SHROUD_array d;
     memset(&d, 0, sizeof d);
-    if (!strcmp(op, "item_default")) { sim_phase(1); SIM_Item_ctor_default(&h[a]); sim_phase(0); res_none(); }
+    if (0) { }
+#ifndef SIMC
+    else if (!strcmp(op, "item_default")) { sim_phase(1); SIM_Item_ctor_default(&h[a]); sim_phase(0); res_none(); }
+#endif
+#ifndef SIMC
     else if (!strcmp(op, "item_val")) { sim_phase(1); SIM_Item_ctor_val(b, &h[a]); sim_phase(0); res_none(); }
+#endif
+#ifndef SIMC
     else if (!strcmp(op, "item_delete")) { sim_phase(1); SIM_Item_delete(&h[a]); sim_phase(0); res_none(); }
+#endif
+#ifndef SIMC
     else if (!strcmp(op, "item_release")) {
         /* release through the capsule: honours the destructor index (0 = library owned) */
         sim_phase(1); SIM_SHROUD_memory_destructor((SIM_SHROUD_capsule_data *)&h[a]); sim_phase(0); res_none();
     }
+#endif
+#ifndef SIMC
     else if (!strcmp(op, "item_value")) { sim_phase(1); int r = SIM_Item_value(&h[a]); sim_phase(0); res_int(r); }
+#endif
+#ifndef SIMC
     else if (!strcmp(op, "item_set")) { sim_phase(1); SIM_Item_set(&h[a], b); sim_phase(0); res_none(); }
+#endif
+#ifndef SIMC
     else if (!strcmp(op, "item_label")) { sim_phase(1); SIM_Item_label_bufferify(&h[a], &d); fetch_string(&d); }
+#endif
+#ifndef SIMC
     else if (!strcmp(op, "item_twin")) { sim_phase(1); SIM_Item_twin(&h[a], &h[b]); sim_phase(0); res_none(); }
+#endif
+#ifndef SIMC
     else if (!strcmp(op, "make_item")) { sim_phase(1); SIM_make_item(b, &h[a]); sim_phase(0); res_none(); }
+#endif
+#ifndef SIMC
     else if (!strcmp(op, "borrow_item")) { sim_phase(1); SIM_borrow_item(&h[a]); sim_phase(0); res_none(); }
+#endif
+#ifndef SIMC
     else if (!strcmp(op, "default_item")) { sim_phase(1); SIM_default_item(&h[a]); sim_phase(0); res_none(); }
+#endif
+#ifndef SIMC
     else if (!strcmp(op, "copy_item")) { sim_phase(1); SIM_copy_item(b, &h[a]); sim_phase(0); res_none(); }
+#endif
+#ifndef SIMC
     else if (!strcmp(op, "use_item")) { sim_phase(1); int r = SIM_use_item(&h[a]); sim_phase(0); res_int(r); }
+#endif
+#ifndef SIMC
     else if (!strcmp(op, "sum_items")) { sim_phase(1); int r = SIM_sum_items(&h[a], &h[b]); sim_phase(0); res_int(r); }
+#endif
+#ifndef SIMC
     else if (!strcmp(op, "assign")) { h[b] = h[a]; res_none(); }
+#endif
+#ifndef SIMC
     else if (!strcmp(op, "make_box")) { sim_phase(1); SIM_make_box(b, &bx[a]); sim_phase(0); res_none(); }
+#endif
+#ifndef SIMC
     else if (!strcmp(op, "box_new")) { sim_phase(1); SIM_Box_ctor(b, &bx[a]); sim_phase(0); res_none(); }
+#endif
+#ifndef SIMC
     else if (!strcmp(op, "box_value")) { sim_phase(1); int r = SIM_Box_value(&bx[a]); sim_phase(0); res_int(r); }
     /* ---- strings through the context protocol */
+#endif
+#ifndef SIMC
     else if (!strcmp(op, "str_ref")) { sim_phase(1); SIM_str_ref_bufferify(&d); fetch_string(&d); }
+#endif
+#ifndef SIMC
     else if (!strcmp(op, "str_val")) { sim_phase(1); SIM_str_val_bufferify(a, &d); fetch_string(&d); }
+#endif
+#ifndef SIMC
     else if (!strcmp(op, "str_owned")) { sim_phase(1); SIM_str_owned_bufferify(a, &d); fetch_string(&d); }
+#endif
+#ifndef SIMC
     else if (!strcmp(op, "str_lib")) { sim_phase(1); SIM_str_lib_bufferify(&d); fetch_string(&d); }
+#endif
     else if (!strcmp(op, "char_ret")) { sim_phase(1); SIM_char_ret_bufferify(a, &d); fetch_string(&d); }
+#ifndef SIMC
     else if (!strcmp(op, "str_in")) {
         char *buf = fbuf(text, a);
         sim_phase(1); int r = SIM_str_in_bufferify(buf, (int)len_trim(buf, a)); sim_phase(0); res_int(r); free(buf);
     }
+#endif
+#ifndef SIMC
     else if (!strcmp(op, "str_out")) {
         char *buf = exact(a); memset(buf, '#', a);
         sim_phase(1); SIM_str_out_bufferify(buf, a, b); sim_phase(0); res_str(buf, a); free(buf);
     }
+#endif
+#ifndef SIMC
     else if (!strcmp(op, "str_inout")) {
         char *buf = fbuf(text, a);
         sim_phase(1); SIM_str_inout_bufferify(buf, (int)len_trim(buf, a), a); sim_phase(0); res_str(buf, a); free(buf);
     }
+#endif
     else if (!strcmp(op, "char_out")) {
         char *buf = exact(a); memset(buf, '#', a);
         size_t n = len_trim(text, strlen(text));
@@ -113,39 +171,58 @@ static void do_op(const char *op, int a, int b, const char *text)
         sim_phase(1); SIM_char_inout_bufferify(buf, (int)len_trim(buf, a), a); sim_phase(0); res_str(buf, a); free(buf);
     }
     /* ---- plain C string API (NUL terminated) */
+#ifndef SIMC
     else if (!strcmp(op, "cstr_ref")) { sim_phase(1); const char *p = SIM_str_ref(); sim_phase(0); res_str(p, strlen(p)); }
+#endif
+#ifndef SIMC
     else if (!strcmp(op, "cstr_lib")) { sim_phase(1); const char *p = SIM_str_lib(); sim_phase(0); res_str(p, strlen(p)); }
+#endif
+#ifndef SIMC
     else if (!strcmp(op, "cstr_owned")) { sim_phase(1); const char *p = SIM_str_owned(a); sim_phase(0); res_str(p, strlen(p)); }
+#endif
+#ifndef SIMC
     else if (!strcmp(op, "cstr_in")) {
         size_t n = strlen(text); char *s = exact(n + 1); memcpy(s, text, n + 1);
         sim_phase(1); int r = SIM_str_in(s); sim_phase(0); res_int(r); free(s);
     }
+#endif
+#ifndef SIMC
     else if (!strcmp(op, "cstr_out")) {
         /* exact fit: n characters + NUL */
         char *s = exact((size_t)b + 1);
         sim_phase(1); SIM_str_out(s, b); sim_phase(0); res_str(s, strlen(s)); free(s);
     }
+#endif
+#ifndef SIMC
     else if (!strcmp(op, "cstr_inout")) {
         size_t n = strlen(text); char *s = exact(n + 3); memcpy(s, text, n + 1);
         sim_phase(1); SIM_str_inout(s); sim_phase(0); res_str(s, strlen(s)); free(s);
     }
     /* ---- vectors */
+#endif
+#ifndef SIMC
     else if (!strcmp(op, "vec_sum")) {
         int *v = (int *)exact(sizeof(int) * a); for (int i = 0; i < a; i++) v[i] = i + 1;
         sim_phase(1); int r = SIM_vec_sum_bufferify(v, a); sim_phase(0); res_int(r); free(v);
     }
+#endif
+#ifndef SIMC
     else if (!strcmp(op, "vec_iota")) {
         int *v = (int *)exact(sizeof(int) * a); for (int i = 0; i < a; i++) v[i] = -7;
         sim_phase(1); SIM_vec_iota_bufferify(&d); SIM_ShroudCopyArray(&d, v, a); sim_phase(0);
         long s = 0; for (int i = 0; i < a; i++) s += v[i];
         res_arr(a, s); free(v);
     }
+#endif
+#ifndef SIMC
     else if (!strcmp(op, "vec_inc")) {
         int *v = (int *)exact(sizeof(int) * a); for (int i = 0; i < a; i++) v[i] = 10 * (i + 1);
         sim_phase(1); SIM_vec_inc_bufferify(v, a, &d); SIM_ShroudCopyArray(&d, v, a); sim_phase(0);
         long s = 0; for (int i = 0; i < a; i++) s += v[i];
         res_arr(a, s); free(v);
     }
+#endif
+#ifndef SIMC
     else if (!strcmp(op, "vec_alloc") || !strcmp(op, "vec_ret")) {
         sim_phase(1);
         if (op[4] == 'a') SIM_vec_alloc_bufferify(&d, a); else SIM_vec_ret_bufferify(a, &d);
@@ -155,12 +232,16 @@ static void do_op(const char *op, int a, int b, const char *text)
         long s = 0; for (size_t i = 0; i < n; i++) s += v[i];
         res_arr((long)n, s); free(v);
     }
+#endif
+#ifndef SIMC
     else if (!strcmp(op, "vec_str_count")) {
         char *names = exact((size_t)a * b); memset(names, ' ', (size_t)a * b);
         for (int i = 1; i <= a; i++) memset(names + (size_t)(i - 1) * b, 'q', i % (b + 1));
         sim_phase(1); int r = SIM_vec_str_count_bufferify(names, a, b); sim_phase(0); res_int(r); free(names);
     }
     /* ---- arrays */
+#endif
+#ifndef SIMC
     else if (!strcmp(op, "arr_new")) {
         int len = 0;
         sim_phase(1);
@@ -170,12 +251,14 @@ static void do_op(const char *op, int a, int b, const char *text)
         long s = 0; for (int i = 0; i < len; i++) s += p[i];
         res_arr(len, s);
     }
+#endif
     else if (!strcmp(op, "arr_lib")) {
         int len = 0;
         sim_phase(1); int *p = SIM_arr_lib_bufferify(&d, &len); sim_phase(0);
         long s = 0; for (int i = 0; i < len; i++) s += p[i];
         res_arr(len, s);
     }
+#ifndef SIMC
     else if (!strcmp(op, "arr_new_alloc")) {
         int len = 0;
         sim_phase(1); SIM_arr_new_alloc_bufferify(&d, a, &len);
@@ -184,6 +267,8 @@ static void do_op(const char *op, int a, int b, const char *text)
         double s = 0; for (int i = 0; i < len; i++) s += v[i];
         res_arr(len, (long)(s * 2)); free(v);
     }
+#endif
+#ifndef SIMC
     else if (!strcmp(op, "arr_pat")) {
         int len = 0;
         sim_phase(1);
@@ -193,10 +278,13 @@ static void do_op(const char *op, int a, int b, const char *text)
         long s = 0; for (int i = 0; i < len; i++) s += p[i];
         res_arr(len, s);
     }
+#endif
+#ifndef SIMC
     else if (!strcmp(op, "arr_sum")) {
         int *v = (int *)exact(sizeof(int) * a); for (int i = 0; i < a; i++) v[i] = 3 * (i + 1);
         sim_phase(1); int r = SIM_arr_sum(v, a); sim_phase(0); res_int(r); free(v);
     }
+#endif
     else if (!strcmp(op, "char_grow")) {
         char *buf = fbuf(text, a);
         sim_phase(1); SIM_char_grow_bufferify(buf, (int)len_trim(buf, a), a); sim_phase(0); res_str(buf, a); free(buf);
@@ -206,7 +294,10 @@ static void do_op(const char *op, int a, int b, const char *text)
         for (int i = 1; i <= a; i++) memset(names + (size_t)(i - 1) * b, 'w', i % (b + 1));
         sim_phase(1); int r = SIM_char_arr_len_bufferify(names, a, b, a); sim_phase(0); res_int(r); free(names);
     }
+#ifndef SIMC
     else if (!strcmp(op, "ref_item")) { sim_phase(1); SIM_ref_item(&h[a]); sim_phase(0); res_none(); }
+#endif
+#ifndef SIMC
     else if (!strcmp(op, "vec_ret_d")) {
         sim_phase(1); SIM_vec_ret_d_bufferify(a, &d);
         size_t n = d.size;
@@ -215,7 +306,11 @@ static void do_op(const char *op, int a, int b, const char *text)
         double s = 0; for (size_t i = 0; i < n; i++) s += v[i];
         res_arr((long)n, (long)(s * 4)); free(v);
     }
+#endif
+#ifndef SIMC
     else if (!strcmp(op, "cap_delete")) { sim_phase(1); SIM_SHROUD_memory_destructor(&caps[a]); sim_phase(0); res_none(); }
+#endif
+#ifndef SIMC
     else if (!strcmp(op, "cap_scope")) {
         int len = 0;
         SIM_SHROUD_capsule_data cap;
@@ -224,6 +319,7 @@ static void do_op(const char *op, int a, int b, const char *text)
         res_arr(len, s);
         sim_phase(1); SIM_SHROUD_memory_destructor(&cap); sim_phase(0);
     }
+#endif
     else printf("RES %d UNKNOWN-OP %s\n", k, op);
 }
 
@@ -234,7 +330,10 @@ int main(int argc, char **argv)
     setvbuf(stdout, NULL, _IONBF, 0);
     if (argc < 2 || !(fp = fopen(argv[1], "r"))) return 2;
     sim_init();
-    memset(h, 0, sizeof h); memset(bx, 0, sizeof bx); memset(caps, 0, sizeof caps);
+#ifndef SIMC
+    memset(h, 0, sizeof h); memset(bx, 0, sizeof bx);
+#endif
+    memset(caps, 0, sizeof caps);
     k = 0;
     while (fgets(line, sizeof line, fp)) {
         int a = 0, b = 0;
